@@ -84,11 +84,59 @@ func mkTime(set value, ns value) value {
 	return structure{set, ns, (*value)(nil)}
 }
 
+// arithmetic on instants/durations in either integer encoding
+func bothIConst(a, b *Term) bool {
+	return a.Op == "const" && b.Op == "const" && (a.Sort.Kind == 'I' || b.Sort.Kind == 'I')
+}
+
+func tAdd(a, b *Term) *Term {
+	if bothIConst(a, b) {
+		return IConst(int64(a.Val) + int64(b.Val))
+	}
+	if a.Sort.Kind == 'I' || b.Sort.Kind == 'I' {
+		return arith("+", IntSort, a, b)
+	}
+	return BVBin("bvadd", a, b)
+}
+func tSub(a, b *Term) *Term {
+	if bothIConst(a, b) {
+		return IConst(int64(a.Val) - int64(b.Val))
+	}
+	if a.Sort.Kind == 'I' || b.Sort.Kind == 'I' {
+		return arith("-", IntSort, a, b)
+	}
+	return BVBin("bvsub", a, b)
+}
+func tLt(a, b *Term) *Term {
+	if bothIConst(a, b) {
+		return BoolConst(int64(a.Val) < int64(b.Val))
+	}
+	if a.Sort.Kind == 'I' || b.Sort.Kind == 'I' {
+		return arith("<", BoolSort, a, b)
+	}
+	return BVCmp("bvslt", a, b)
+}
+func tLe(a, b *Term) *Term {
+	if bothIConst(a, b) {
+		return BoolConst(int64(a.Val) <= int64(b.Val))
+	}
+	if a.Sort.Kind == 'I' || b.Sort.Kind == 'I' {
+		return arith("<=", BoolSort, a, b)
+	}
+	return BVCmp("bvsle", a, b)
+}
+func tConst(v int64) *Term {
+	if X != nil && X.IntMode {
+		return IConst(v)
+	}
+	return BVConst(uint64(v), 64)
+}
+
 func timeBefore(a, b value) *Term {
 	as, an := timeParts(a)
 	bs, bn := timeParts(b)
 	// zero time precedes every set time
-	return Or(And(Not(as), bs), And(And(as, bs), BVCmp("bvslt", an, bn)))
+	return Or(And(Not(as), bs), And(And(as, bs), tLt(an, bn)))
 }
 
 func timeEqual(a, b value) *Term {
@@ -163,14 +211,14 @@ func init() {
 	symExternals["(time.Time).Add"] = func(fr *frame, args []value) value {
 		requireSet(args[0], "Add")
 		_, ns := timeParts(args[0])
-		return mkTime(uint64(1), mkScalar(BVBin("bvadd", ns, termOf(args[1])), types.Int64))
+		return mkTime(uint64(1), mkScalar(tAdd(ns, termOf(args[1])), types.Int64))
 	}
 	symExternals["(time.Time).Sub"] = func(fr *frame, args []value) value {
 		requireSet(args[0], "Sub")
 		requireSet(args[1], "Sub")
 		_, a := timeParts(args[0])
 		_, b := timeParts(args[1])
-		return mkScalar(BVBin("bvsub", a, b), types.Int64)
+		return mkScalar(tSub(a, b), types.Int64)
 	}
 	symExternals["(time.Time).UnixNano"] = func(fr *frame, args []value) value {
 		requireSet(args[0], "UnixNano")
@@ -178,17 +226,17 @@ func init() {
 		return mkScalar(a, types.Int64)
 	}
 	symExternals[rtPkg+"Time"] = func(fr *frame, args []value) value {
-		tv := X.fresh(labelOf(args[0]), BV(64))
+		tv := X.fresh(labelOf(args[0]), X.intSort())
 		X.InputLog = append(X.InputLog, InputRec{K: "time", L: labelOf(args[0]), Vars: []string{tv.Name}})
 		t := X.pinOr(tv)
-		X.addPC(BVCmp("bvsge", t, BVConst(0, 64)), BVCmp("bvslt", t, BVConst(1<<62, 64)))
+		X.addPC(tLe(tConst(0), t), tLt(t, tConst(1<<62)))
 		return mkTime(uint64(1), mkScalar(t, types.Int64))
 	}
 	symExternals[rtPkg+"Duration"] = func(fr *frame, args []value) value {
-		tv := X.fresh(labelOf(args[0]), BV(64))
+		tv := X.fresh(labelOf(args[0]), X.intSort())
 		X.InputLog = append(X.InputLog, InputRec{K: "duration", L: labelOf(args[0]), Vars: []string{tv.Name}})
 		t := X.pinOr(tv)
-		X.addPC(BVCmp("bvsgt", t, BVConst(uint64(1<<63+1<<62), 64)), BVCmp("bvslt", t, BVConst(1<<61, 64)))
+		X.addPC(tLt(tConst(-(1<<62)), t), tLt(t, tConst(1<<61)))
 		return mkScalar(t, types.Int64)
 	}
 
